@@ -154,6 +154,10 @@ type Root struct {
 	Parent J      `json:"parent,omitempty"`
 	// Refreshed is the contact carried by "refresh:<text>" resume events
 	Refreshed J `json:"refreshed,omitempty"`
+	// RefreshPatch, if set, makes the refreshed contact from the session's own contact at that moment:
+	// top-level members are replaced (null deletes); "groups+" appends group references and "groups-"
+	// removes groups by UUID. This is how a caller's contact differs in one aspect only.
+	RefreshPatch J `json:"refresh_patch,omitempty"`
 	// FreshAssets rebuilds the SessionAssets (cold flow cache) for every execution instead of
 	// sharing one per root
 	FreshAssets bool `json:"fresh_assets,omitempty"`
@@ -372,6 +376,35 @@ func (x *Exec) Apply(st Step) error {
 		cj := x.Root.Refreshed
 		if cj == nil {
 			cj = RefreshedContact()
+		}
+		if x.Root.RefreshPatch != nil {
+			cur, _ := json.Marshal(x.Session.Contact())
+			cj = J{}
+			json.Unmarshal(cur, &cj)
+			for k, v := range x.Root.RefreshPatch {
+				switch {
+				case k == "groups+":
+					gs, _ := cj["groups"].([]any)
+					cj["groups"] = append(append([]any{}, gs...), v.([]any)...)
+				case k == "groups-":
+					var keep []any
+					gs, _ := cj["groups"].([]any)
+					for _, g := range gs {
+						drop := false
+						for _, u := range v.([]any) {
+							drop = drop || g.(map[string]any)["uuid"] == u
+						}
+						if !drop {
+							keep = append(keep, g)
+						}
+					}
+					cj["groups"] = keep
+				case v == nil:
+					delete(cj, k)
+				default:
+					cj[k] = v
+				}
+			}
 		}
 		b, _ := json.Marshal(cj)
 		contact, err := flows.ReadContact(x.SA, b, assets.IgnoreMissing)
